@@ -10,6 +10,7 @@ import (
 	"github.com/aperturerobotics/util/promise"
 	"pgregory.net/rapid"
 	"verif/harness/ev"
+	"verif/harness/sched"
 )
 
 // OnceSeqCase: the wrapped function returns at once with scripted outcomes; Resolve is called
@@ -151,6 +152,10 @@ func TestC16Seq(t *testing.T) {
 		Prop: "C16", ReplayRuns: 1,
 		Rule: "promise.Once (4/5) or memo.MemoizeFunc (1/5) used from one goroutine: 1..8 Resolve calls with a live context on a function that returns at once with scripted outcomes (value, zero value, error, errors wrapping context.Canceled / DeadlineExceeded, the sentinels themselves); oracle: every Resolve runs the function once more (again after exactly context.Canceled) and returns that invocation's own outcome, after a success no further invocation and always that value, MemoizeFunc one invocation and always its outcome; non-trivial iff >= 2 calls; distinct by input",
 		Gen:  genOnceSeq,
-		Run:  runOnceSeq,
+		Run: func(t *testing.T, cs OnceSeqCase) *ev.Verdict {
+			var v *ev.Verdict
+			sched.Guard(func() { v = runOnceSeq(t, cs) })
+			return v
+		},
 	})
 }
